@@ -2478,7 +2478,19 @@ impl<'a, E: quiver_core::effects::Effect> Compiler<'a, E> {
             // A chain after the first threads from the previous chain's result (on the stack). That
             // value is non-nil — a nil result short-circuits to the end — so strip nil from its
             // type. The first chain has no threaded value and loads the block parameter instead.
-            let chain_input = threaded.map(|(t, p)| (self.without_nil(t), p));
+            // Stripping nil also cuts the link to the value's source: the source itself may
+            // still be nil (that is what the short-circuit handles), so a match on the threaded
+            // value proves nothing about it — `{ ~, ='int => 7 }` over 'int | [] is not
+            // exhaustive although every non-nil value passes the test.
+            let chain_input = threaded.map(|(t, p)| {
+                let stripped = self.without_nil(t);
+                let provenance = if stripped == t {
+                    p
+                } else {
+                    Provenance::Unknown
+                };
+                (stripped, provenance)
+            });
 
             let (chain_type, chain_prov) = self.compile_chain_with_input(
                 chain.clone(),
